@@ -45,6 +45,10 @@ def cases(tier, seed):
         if with_species and k >= 2 and not any(x.startswith("Y(") for x in names):
             names[-1] = rng.choice(SPECIES)
         rng.shuffle(names)
+        if i % 8 == 1 and k >= 2:     # two names that differ only in letter case
+            a, b = [("temp", "Temp"), ("HeatRelease", "heatrelease"), ("foo", "FOO"), ("zeta", "Zeta")][(i // 8) % 4]
+            names = [n for n in names if n not in (a, b)][:k - 2] + [a, b]
+            rng.shuffle(names)
         if i % 8 == 5:      # names holding blanks or UTF-8 text (valid: one name per header line)
             names = gen.odd_names(random.Random(seed * 43 + i), k, blanks=True, nonascii=True)
             if not any(" " in x for x in names):
